@@ -13,6 +13,10 @@ type RegistryDec struct {
 	Inner sop.Registry
 	R     *Recorder
 	Txn   string
+	// Torn, when it returns j >= 0 for an UpdateNoLocks event, lets only the first j handles of the batch through;
+	// TornThen is called afterwards (typically os.Exit: a crash in the middle of the per-handle block writes).
+	Torn     func(ev *Event) int
+	TornThen func(ev *Event)
 }
 
 func (d *RegistryDec) evU(m string, p []sop.RegistryPayload[sop.UUID]) *Event {
@@ -75,7 +79,39 @@ func (d *RegistryDec) Update(ctx context.Context, p []sop.RegistryPayload[sop.Ha
 func (d *RegistryDec) UpdateNoLocks(ctx context.Context, allOrNothing bool, p []sop.RegistryPayload[sop.Handle]) error {
 	ev := d.evH("UpdateNoLocks", p)
 	ev.Bool = &allOrNothing
-	return d.write(ev, func() error { return d.Inner.UpdateNoLocks(ctx, allOrNothing, p) })
+	return d.write(ev, func() error {
+		if d.Torn != nil {
+			if j := d.Torn(ev); j >= 0 {
+				// torn batch: only the first j handles (in call order) reach the registry, then TornThen runs (crash)
+				var q []sop.RegistryPayload[sop.Handle]
+				for _, x := range p {
+					y := x
+					y.IDs = nil
+					for _, h := range x.IDs {
+						if j > 0 {
+							y.IDs = append(y.IDs, h)
+							j--
+						}
+					}
+					if len(y.IDs) > 0 {
+						q = append(q, y)
+					}
+				}
+				var err error
+				if len(q) > 0 {
+					err = d.Inner.UpdateNoLocks(ctx, allOrNothing, q)
+				}
+				if d.TornThen != nil {
+					d.TornThen(ev)
+				}
+				if err == nil {
+					err = ErrInjected
+				}
+				return err
+			}
+		}
+		return d.Inner.UpdateNoLocks(ctx, allOrNothing, p)
+	})
 }
 func (d *RegistryDec) Remove(ctx context.Context, p []sop.RegistryPayload[sop.UUID]) error {
 	return d.write(d.evU("Remove", p), func() error { return d.Inner.Remove(ctx, p) })
